@@ -16,6 +16,9 @@
 pub struct Worksheet { pub sheet_id: u32, pub name: String, pub color: Color, pub show_grid_lines: bool, pub state: SheetState, pub views: HashMap<u32, WorksheetView>, pub rest: WorksheetRest }
 #[verifier::external_body] pub struct ModelRest<'a> { _p: core::marker::PhantomData<&'a u8> }
 #[verifier::external_body] pub struct WorkbookRest { _o: u8 }
+// A-eq: the derived PartialEq of Link decides value equality
+impl vstd::std_specs::cmp::PartialEqSpecImpl for Link { open spec fn obeys_eq_spec() -> bool { true } open spec fn eq_spec(&self, other: &Link) -> bool { *self == *other } }
+impl PartialEq for Link { #[verifier::external_body] fn eq(&self, other: &Link) -> bool { unimplemented!() } }
 impl Clone for Color { #[verifier::external_body] fn clone(&self) -> (r: Self) ensures r == *self { unimplemented!() } }
 #[derive(PartialEq, Eq, Structural)]   // the repository's enum derives PartialEq/Eq; Structural (ghost) ties `==` to spec equality
 //@type base/src/types.rs SheetState
